@@ -12,7 +12,7 @@ import (
 	"verifharness/internal/val"
 )
 
-var c08Floor = []string{"depth.2", "depth.3", "inner.empty", "outer.empty", "mid.empty", "ragged", "where", "item.alias", "item.nonidempotent", "item.star", "item.async", "item.userfn", "mix", "mix.keep", "reexec.after-fault", "opt.vars", "opt.constants", "item.aggregate", "item.all-aggregate", "where.aggregate", "reexec", "naming.table-qualified", "naming.alias", "naming.alias-unqualified"}
+var c08Floor = []string{"depth.2", "depth.3", "inner.empty", "outer.empty", "mid.empty", "ragged", "where", "item.alias", "item.nonidempotent", "item.star", "item.async", "item.userfn", "mix", "mix.keep", "reexec.after-fault", "opt.vars", "opt.constants", "item.aggregate", "item.all-aggregate", "where.aggregate", "reexec", "naming.table-qualified", "naming.alias", "naming.alias-unqualified", "row.shadows-table"}
 
 func init() {
 	fw.Register(&fw.Prop{
@@ -136,6 +136,36 @@ func c08Run(c *fw.Case) {
 	case force == "naming.alias-unqualified" || (force == "" && c.Chance(0.06)):
 		as = " m"
 		feats = append(feats, "naming.alias-unqualified")
+	}
+	if qual == "mm" && (force == "naming.table-qualified" && c.Idx%2 == 0 || c.Chance(0.3)) {
+		// rows that carry a column named like the table: mm.n1 is then that
+		// column's member, in a nested, a flattened and a flat source alike
+		var walk func(v any)
+		walk = func(v any) {
+			switch x := v.(type) {
+			case []any:
+				for _, e := range x {
+					walk(e)
+				}
+			case map[string]any:
+				if c.Chance(0.7) {
+					// a whole row of its own, with other values
+					inner := map[string]any{}
+					for k, v := range x {
+						inner[k] = v
+						if p := tmpl.Pools[k]; len(p) > 0 && v != nil {
+							inner[k] = gen.Pick(c.R, p)
+						}
+					}
+					// ... but without rid: mm.rid finds nothing there, and
+					// must not fall back to the row's own rid
+					delete(inner, "rid")
+					x["mm"] = inner
+				}
+			}
+		}
+		walk(mm)
+		feats = append(feats, "row.shadows-table")
 	}
 	qcols := func(text string) string {
 		if qual == "" {
